@@ -1,1 +1,748 @@
-(* stub: to be written by group Questrade *)
+(* C20 (text layer): the allocation-table parser returns every well-formed
+   table as listed (round trip through render_table). *)
+From Coq Require Import List NArith ZArith QArith Qcanon Bool Lia.
+From ACB Require Import Base.Outcome Base.QcExtra Base.Fit Model.QText Model.Fmv Spec.FmvTable.
+Import ListNotations.
+Local Open Scope N_scope.
+
+(* ---------- characters and white space ---------- *)
+Definition nonspace (c : N) : bool := negb (is_space c).
+
+Lemma is_space_32 : is_space 32 = true. Proof. reflexivity. Qed.
+Lemma is_space_10 : is_space 10 = true. Proof. reflexivity. Qed.
+Lemma is_space_13 : is_space 13 = true. Proof. reflexivity. Qed.
+Lemma is_space_bullet : is_space c_bullet = false. Proof. reflexivity. Qed.
+
+Lemma is_digit_nonspace c : is_digit c = true -> is_space c = false.
+Proof.
+  unfold is_digit, is_space. rewrite andb_true_iff, !N.leb_le. intros [H1 H2].
+  repeat match goal with
+         | |- context [?a <=? ?b] => destruct (N.leb_spec a b); try lia
+         | |- context [?a =? ?b] => destruct (N.eqb_spec a b); try lia
+         end; reflexivity.
+Qed.
+
+Lemma is_num_char_nonspace c : is_num_char c = true -> is_space c = false.
+Proof.
+  unfold is_num_char, is_dot, is_comma. rewrite !orb_true_iff.
+  intros [[H|H]|H]; [apply is_digit_nonspace; exact H | |]; apply N.eqb_eq in H; subst; reflexivity.
+Qed.
+
+Lemma is_numdot_num c : is_numdot_char c = true -> is_num_char c = true.
+Proof. unfold is_numdot_char, is_num_char. intros H. rewrite H. reflexivity. Qed.
+
+Lemma is_num_char_not_bullet c : is_num_char c = true -> (c =? c_bullet) = false.
+Proof.
+  unfold is_num_char, is_digit, is_dot, is_comma, c_bullet.
+  rewrite !orb_true_iff, andb_true_iff, !N.leb_le, !N.eqb_eq. intros H.
+  apply N.eqb_neq. lia.
+Qed.
+
+Lemma is_num_char_not_nl c : is_num_char c = true -> (c =? 10) = false.
+Proof.
+  unfold is_num_char, is_digit, is_dot, is_comma.
+  rewrite !orb_true_iff, andb_true_iff, !N.leb_le, !N.eqb_eq. intros H.
+  apply N.eqb_neq. lia.
+Qed.
+
+Lemma skip_spaces_repeat k l : skip_spaces (repeat 32 k ++ l) = skip_spaces l.
+Proof. induction k as [|k IH]; [reflexivity|]. cbn [repeat app skip_spaces]. rewrite is_space_32. exact IH. Qed.
+
+Lemma skip_spaces_nonspace c l : is_space c = false -> skip_spaces (c :: l) = c :: l.
+Proof. intros H. cbn [skip_spaces]. rewrite H. reflexivity. Qed.
+
+Lemma is_blank_repeat k l : is_blank (repeat 32 k ++ l) = is_blank l.
+Proof.
+  unfold is_blank. rewrite forallb_app. replace (forallb is_space (repeat 32 k)) with true; [reflexivity|].
+  induction k as [|k IH]; [reflexivity|]. cbn [repeat forallb]. rewrite is_space_32, <- IH. reflexivity.
+Qed.
+
+Lemma is_blank_nonspace c l : is_space c = false -> is_blank (c :: l) = false.
+Proof. intros H. unfold is_blank. cbn [forallb]. rewrite H. reflexivity. Qed.
+
+Lemma last_hd_rev (l : text) d : last l d = hd d (rev l).
+Proof.
+  induction l as [|x r IH] using rev_ind; [reflexivity|].
+  rewrite last_last, rev_app_distr. reflexivity.
+Qed.
+
+Lemma span_nonspace_app t r :
+  forallb nonspace t = true -> (r = [] \/ starts_with_space r = true) ->
+  span_nonspace (t ++ r) = (t, r).
+Proof.
+  intros Ht Hr. induction t as [|c t IH].
+  - cbn [app]. destruct Hr as [->|Hr]; [reflexivity|].
+    destruct r as [|x r]; [discriminate|]. cbn in Hr. cbn [span_nonspace]. rewrite Hr. reflexivity.
+  - cbn [forallb] in Ht. apply andb_true_iff in Ht. destruct Ht as [Hc Ht].
+    unfold nonspace in Hc. apply negb_true_iff in Hc.
+    cbn [app span_nonspace]. rewrite Hc, (IH Ht). reflexivity.
+Qed.
+
+Lemma span_no_nl_all l : no_nl l = true -> span_no_nl l = (l, []).
+Proof.
+  induction l as [|c r IH]; [reflexivity|].
+  unfold no_nl. cbn [forallb]. rewrite andb_true_iff. intros [Hc Hr].
+  apply negb_true_iff in Hc. cbn [span_no_nl]. rewrite Hc, (IH Hr). reflexivity.
+Qed.
+
+Lemma forallb_rev {A} (f : A -> bool) l : forallb f (rev l) = forallb f l.
+Proof.
+  induction l as [|x r IH]; [reflexivity|].
+  cbn [rev forallb]. rewrite forallb_app, IH. cbn [forallb]. rewrite andb_true_r, andb_comm. reflexivity.
+Qed.
+
+Lemma existsb_false_forallb {A} (f : A -> bool) l :
+  forallb (fun x => negb (f x)) l = true -> existsb f l = false.
+Proof.
+  induction l as [|x r IH]; [reflexivity|].
+  cbn [forallb existsb]. rewrite andb_true_iff. intros [Hx Hr].
+  apply negb_true_iff in Hx. rewrite Hx, (IH Hr). reflexivity.
+Qed.
+
+(* ---------- str::lines ---------- *)
+Lemma lines_aux_line l : forall racc rest,
+  no_nl l = true ->
+  lines_aux racc (l ++ 10 :: rest) = strip_cr_rev (rev l ++ racc) :: lines_aux [] rest.
+Proof.
+  induction l as [|c r IH]; intros racc rest H.
+  - reflexivity.
+  - unfold no_nl in H. cbn [forallb] in H. apply andb_true_iff in H. destruct H as [Hc Hr].
+    apply negb_true_iff in Hc.
+    cbn [app lines_aux]. rewrite Hc. rewrite (IH (c :: racc) rest Hr).
+    cbn [rev]. rewrite <- app_assoc. reflexivity.
+Qed.
+
+Lemma strip_cr_rev_not_cr x a : x <> 13 -> strip_cr_rev (x :: a) = rev (x :: a).
+Proof.
+  intros Hx. unfold strip_cr_rev. destruct x as [|p]; [reflexivity|].
+  do 4 (destruct p as [p|p|]; try reflexivity). contradiction Hx. reflexivity.
+Qed.
+
+Lemma strip_cr_plain l : plain_line l = true -> strip_cr_rev (rev l) = l.
+Proof.
+  unfold plain_line. rewrite andb_true_iff. intros [_ H]. apply negb_true_iff in H.
+  rewrite last_hd_rev in H. rewrite <- (rev_involutive l) at 2.
+  destruct (rev l) as [|x a].
+  - reflexivity.
+  - cbn [hd] in H. apply strip_cr_rev_not_cr. apply N.eqb_neq. exact H.
+Qed.
+
+Lemma lines_render ls post :
+  forallb plain_line ls = true ->
+  lines (concat (map (fun l => l ++ [10]) ls) ++ post) = ls ++ lines post.
+Proof.
+  unfold lines. induction ls as [|l r IH]; intros H; [reflexivity|].
+  cbn [forallb] in H. apply andb_true_iff in H. destruct H as [Hl Hr].
+  cbn [map concat]. rewrite <- !app_assoc. cbn [app].
+  rewrite lines_aux_line.
+  - rewrite app_nil_r, (strip_cr_plain l Hl), (IH Hr). reflexivity.
+  - unfold plain_line in Hl. apply andb_true_iff in Hl. apply Hl.
+Qed.
+
+(* ---------- the matchers on rendered lines ---------- *)
+Lemma match_first_row_bullet k h :
+  desc_line_ok h = true ->
+  match_first_row (repeat 32 k ++ c_bullet :: 32 :: h) = Some h.
+Proof.
+  intros Hh. unfold desc_line_ok in Hh. destruct h as [|c r]; [discriminate|].
+  apply andb_true_iff in Hh. destruct Hh as [Hh Hnl].
+  apply andb_true_iff in Hh. destruct Hh as [Hc _]. apply negb_true_iff in Hc.
+  unfold match_first_row. rewrite skip_spaces_repeat.
+  rewrite (skip_spaces_nonspace _ _ is_space_bullet). rewrite N.eqb_refl.
+  change (skip_spaces (32 :: c :: r)) with (skip_spaces (c :: r)).
+  rewrite (skip_spaces_nonspace _ _ Hc).
+  rewrite (span_no_nl_all _ Hnl). reflexivity.
+Qed.
+
+Lemma match_first_row_other k c r :
+  is_space c = false -> (c =? c_bullet) = false ->
+  match_first_row (repeat 32 k ++ c :: r) = None.
+Proof.
+  intros Hc Hb. unfold match_first_row. rewrite skip_spaces_repeat, (skip_spaces_nonspace _ _ Hc), Hb.
+  reflexivity.
+Qed.
+
+Lemma trim_indent k c r :
+  is_space c = false -> is_space (last (c :: r) 32) = false ->
+  trim (repeat 32 k ++ c :: r) = c :: r.
+Proof.
+  intros Hc Hl. unfold trim. rewrite skip_spaces_repeat, (skip_spaces_nonspace _ _ Hc).
+  rewrite last_hd_rev in Hl.
+  destruct (rev (c :: r)) as [|x a] eqn:E.
+  - apply (f_equal (@rev N)) in E. rewrite rev_involutive in E. discriminate.
+  - cbn [hd] in Hl. rewrite (skip_spaces_nonspace _ _ Hl). rewrite <- E. apply rev_involutive.
+Qed.
+
+Lemma total_tok_chars tot :
+  total_tok_ok tot = true -> exists c r, tot = c :: r /\ is_digit c = true /\ forallb is_num_char r = true.
+Proof.
+  unfold total_tok_ok. destruct tot as [|c [|d r]]; try discriminate.
+  rewrite andb_true_iff. intros [Hc Hr]. exists c, (d :: r). auto.
+Qed.
+
+Lemma num_chars_nonspace r : forallb is_num_char r = true -> forallb nonspace r = true.
+Proof.
+  intros H. apply forallb_forall. intros x Hx. rewrite forallb_forall in H.
+  unfold nonspace. rewrite (is_num_char_nonspace x (H x Hx)). reflexivity.
+Qed.
+
+Lemma match_total_line k (b00 : bool) tot :
+  total_tok_ok tot = true ->
+  match_total (repeat 32 k ++ t_100_0 ++ (if b00 then [48] else []) ++ 32 :: tot) = Some tot.
+Proof.
+  intros Htok. destruct (total_tok_chars tot Htok) as [c [r [-> [Hc Hr]]]].
+  unfold match_total. rewrite skip_spaces_repeat.
+  assert (Hsp : is_space c = false) by (apply is_digit_nonspace; exact Hc).
+  assert (Hspan : span_nonspace (c :: r) = (c :: r, [])).
+  { rewrite <- (app_nil_r (c :: r)) at 1. apply span_nonspace_app; [|left; reflexivity].
+    cbn [forallb]. unfold nonspace at 1. rewrite Hsp. cbn [negb andb]. apply num_chars_nonspace. exact Hr. }
+  destruct b00; cbn [t_100_0 app skip_spaces is_space N.leb N.eqb]; cbn.
+  - rewrite Hsp, Hspan, Htok. reflexivity.
+  - rewrite Hsp, Hspan, Htok. reflexivity.
+Qed.
+
+(* ---------- SEC_DATA_RE on a gathered security text ---------- *)
+Lemma alloc_tok_chars a :
+  alloc_tok_ok a = true -> a <> [] /\ forallb nonspace a = true.
+Proof.
+  unfold alloc_tok_ok. destruct a as [|c [|d r]]; try discriminate.
+  rewrite andb_true_iff. intros [Hc Hr]. split; [discriminate|].
+  apply forallb_forall. intros x [<-|Hx].
+  - unfold nonspace. rewrite (is_digit_nonspace _ Hc). reflexivity.
+  - rewrite forallb_forall in Hr. unfold nonspace.
+    rewrite (is_num_char_nonspace x (is_numdot_num x (Hr x Hx))). reflexivity.
+Qed.
+
+Lemma fmv_tok_chars f :
+  fmv_tok_ok f = true -> f <> [] /\ forallb nonspace f = true.
+Proof.
+  unfold fmv_tok_ok. destruct f as [|c r]; try discriminate.
+  rewrite andb_true_iff. intros [Hc Hr]. split; [discriminate|].
+  apply forallb_forall. intros x [<-|Hx].
+  - unfold nonspace. rewrite (is_digit_nonspace _ Hc). reflexivity.
+  - rewrite forallb_forall in Hr. unfold nonspace.
+    rewrite (is_num_char_nonspace x (Hr x Hx)). reflexivity.
+Qed.
+
+Lemma skip_spaces_tok t x :
+  t <> [] -> forallb nonspace t = true -> skip_spaces (t ++ x) = t ++ x.
+Proof.
+  intros Hne Ht. destruct t as [|c r]; [contradiction Hne; reflexivity|].
+  cbn [forallb] in Ht. apply andb_true_iff in Ht. destruct Ht as [Hc _].
+  unfold nonspace in Hc. apply negb_true_iff in Hc. cbn [app]. apply skip_spaces_nonspace. exact Hc.
+Qed.
+
+Lemma rev_nonnil {A} (l : list A) : l <> [] -> rev l <> [].
+Proof.
+  intros H E. apply H. apply (f_equal (@rev A)) in E. rewrite rev_involutive in E. exact E.
+Qed.
+
+Lemma no_nl_existsb d : no_nl d = true -> existsb (N.eqb 10) d = false.
+Proof.
+  unfold no_nl. induction d as [|x r IH]; [reflexivity|].
+  cbn [forallb existsb]. rewrite andb_true_iff. intros [Hx Hr].
+  apply negb_true_iff in Hx. rewrite N.eqb_sym, Hx, (IH Hr). reflexivity.
+Qed.
+
+(* a description text: starts and ends with a non-space character, no newline *)
+Definition desc_text_ok (d : text) : bool :=
+  match d with
+  | [] => false
+  | c :: _ => nonspace c && nonspace (last d 32) && no_nl d
+  end.
+
+Lemma match_data_rendered d a f :
+  desc_text_ok d = true -> alloc_tok_ok a = true -> fmv_tok_ok f = true ->
+  match_data (d ++ 32 :: a ++ 32 :: f) = Some (d, a, f).
+Proof.
+  intros Hd Ha Hf.
+  destruct (alloc_tok_chars a Ha) as [Hane Hans].
+  destruct (fmv_tok_chars f Hf) as [Hfne Hfns].
+  unfold desc_text_ok in Hd. destruct d as [|c r] eqn:Ed; [discriminate|]. rewrite <- Ed in *.
+  apply andb_true_iff in Hd. destruct Hd as [Hd Hnl]. apply andb_true_iff in Hd. destruct Hd as [Hc Hl].
+  unfold nonspace in Hc, Hl. apply negb_true_iff in Hc. apply negb_true_iff in Hl.
+  assert (Hrev : rev (d ++ 32 :: a ++ 32 :: f) = rev f ++ 32 :: rev a ++ 32 :: rev d).
+  { rewrite !rev_app_distr. cbn [rev]. rewrite !rev_app_distr. cbn [rev app].
+    rewrite <- !app_assoc. reflexivity. }
+  unfold match_data. rewrite Hrev.
+  rewrite (skip_spaces_tok (rev f)); [|apply rev_nonnil; exact Hfne | rewrite forallb_rev; exact Hfns].
+  rewrite (span_nonspace_app (rev f)); [|rewrite forallb_rev; exact Hfns | right; reflexivity].
+  rewrite rev_involutive, Hf. cbn [negb starts_with_space]. rewrite is_space_32.
+  change (skip_spaces (32 :: rev a ++ 32 :: rev d)) with (skip_spaces (rev a ++ 32 :: rev d)).
+  rewrite (skip_spaces_tok (rev a)); [|apply rev_nonnil; exact Hane | rewrite forallb_rev; exact Hans].
+  rewrite (span_nonspace_app (rev a)); [|rewrite forallb_rev; exact Hans | right; reflexivity].
+  rewrite rev_involutive, Ha. cbn [negb starts_with_space]. rewrite is_space_32.
+  change (skip_spaces (32 :: rev d)) with (skip_spaces (rev d)).
+  rewrite last_hd_rev in Hl.
+  assert (Hsr : skip_spaces (rev d) = rev d).
+  { destruct (rev d) as [|x t]; [reflexivity|]. cbn [hd] in Hl. apply skip_spaces_nonspace. exact Hl. }
+  rewrite Hsr, rev_involutive. cbn [negb].
+  assert (He : existsb (N.eqb 10) d = false).
+  { apply no_nl_existsb. exact Hnl. }
+  rewrite Ed in *. rewrite (skip_spaces_nonspace _ _ Hc). rewrite He. reflexivity.
+Qed.
+
+(* ---------- joining description lines ---------- *)
+Lemma join_sp_cons2 x y r : join_sp (x :: y :: r) = x ++ 32 :: join_sp (y :: r).
+Proof. reflexivity. Qed.
+
+Lemma concat_attach_inline l n :
+  l <> [] ->
+  concat (map (cons 32) (attach_inline l n)) = concat (map (cons 32) l) ++ 32 :: n.
+Proof.
+  induction l as [|y r IH]; intros Hne; [contradiction Hne; reflexivity|].
+  destruct r as [|z r'].
+  - cbn [attach_inline map concat]. rewrite !app_nil_r. reflexivity.
+  - change (attach_inline (y :: z :: r') n) with (y :: attach_inline (z :: r') n).
+    cbn [map concat]. rewrite IH by discriminate. cbn [map concat].
+    rewrite <- !app_assoc. reflexivity.
+Qed.
+
+Lemma join_attach_inline dl n :
+  dl <> [] -> join_sp (attach_inline dl n) = join_sp dl ++ 32 :: n.
+Proof.
+  destruct dl as [|x r]; intros Hne; [contradiction Hne; reflexivity|].
+  destruct r as [|y r'].
+  - cbn [attach_inline join_sp map concat]. rewrite !app_nil_r. reflexivity.
+  - change (attach_inline (x :: y :: r') n) with (x :: attach_inline (y :: r') n).
+    unfold join_sp. rewrite concat_attach_inline by discriminate. rewrite <- app_assoc. reflexivity.
+Qed.
+
+Lemma join_own dl n : dl <> [] -> join_sp (dl ++ [n]) = join_sp dl ++ 32 :: n.
+Proof.
+  destruct dl as [|x r]; intros Hne; [contradiction Hne; reflexivity|].
+  cbn [app join_sp]. rewrite map_app, concat_app. cbn [map concat]. rewrite app_nil_r, <- app_assoc.
+  reflexivity.
+Qed.
+
+Definition full_text (s : sec_lay) : text := join_sp (sl_lines s) ++ 32 :: nums s.
+
+Lemma join_sec_lines s : sl_lines s <> [] -> join_sp (sec_lines s) = full_text s.
+Proof.
+  intros Hne. unfold sec_lines, full_text. destruct (sl_own s).
+  - apply join_own. exact Hne.
+  - apply join_attach_inline. exact Hne.
+Qed.
+
+(* ---------- description lines ---------- *)
+Lemma desc_line_ok_parts l :
+  desc_line_ok l = true ->
+  exists c r, l = c :: r /\ is_space c = false /\ is_space (last l 32) = false /\ no_nl l = true.
+Proof.
+  unfold desc_line_ok. destruct l as [|c r]; [discriminate|].
+  rewrite !andb_true_iff, !negb_true_iff. intros [[H1 H2] H3]. exists c, r. auto.
+Qed.
+
+Lemma last_app_nonnil (a b : text) d : b <> [] -> last (a ++ b) d = last b d.
+Proof.
+  intros Hb. rewrite !last_hd_rev, rev_app_distr.
+  destruct (rev b) as [|x t] eqn:E; [exfalso; apply (rev_nonnil b Hb); exact E|]. reflexivity.
+Qed.
+
+Lemma no_nl_app a b : no_nl (a ++ b) = no_nl a && no_nl b.
+Proof. unfold no_nl. apply forallb_app. Qed.
+
+Lemma desc_line_ok_join a b :
+  desc_line_ok a = true -> desc_line_ok b = true -> desc_line_ok (a ++ 32 :: b) = true.
+Proof.
+  intros Ha Hb.
+  destruct (desc_line_ok_parts a Ha) as [c [r [-> [Hc [_ Hna]]]]].
+  destruct (desc_line_ok_parts b Hb) as [c' [r' [Eb [_ [Hlb Hnb]]]]].
+  unfold desc_line_ok. cbn [app]. rewrite Hc. cbn [negb andb].
+  change (c :: r ++ 32 :: b) with ((c :: r) ++ 32 :: b).
+  rewrite (last_app_nonnil (c :: r) (32 :: b)) by discriminate.
+  assert (Hl : last (32 :: b) 32 = last b 32).
+  { rewrite Eb. reflexivity. }
+  rewrite Hl, Hlb. cbn [negb andb].
+  rewrite no_nl_app, Hna. unfold no_nl at 1. cbn [forallb]. fold (no_nl b). rewrite Hnb. reflexivity.
+Qed.
+
+Lemma desc_line_ok_text l : desc_line_ok l = true -> desc_text_ok l = true.
+Proof.
+  intros H. destruct (desc_line_ok_parts l H) as [c [r [-> [Hc [Hl Hn]]]]].
+  unfold desc_text_ok, nonspace. rewrite Hc, Hl, Hn. reflexivity.
+Qed.
+
+Lemma desc_line_ok_join_sp ls :
+  ls <> [] -> forallb desc_line_ok ls = true -> desc_line_ok (join_sp ls) = true.
+Proof.
+  induction ls as [|x r IH]; intros Hne H; [contradiction Hne; reflexivity|].
+  cbn [forallb] in H. apply andb_true_iff in H. destruct H as [Hx Hr].
+  destruct r as [|y r'].
+  - cbn [join_sp map concat]. rewrite app_nil_r. exact Hx.
+  - rewrite join_sp_cons2. apply desc_line_ok_join; [exact Hx|]. apply IH; [discriminate | exact Hr].
+Qed.
+
+Lemma nums_line_ok s :
+  alloc_tok_ok (sl_alloc s) = true -> fmv_tok_ok (sl_fmv s) = true ->
+  desc_line_ok (nums s) = true /\ not_bullet_first (nums s) = true.
+Proof.
+  intros Ha Hf. unfold nums.
+  assert (Hda : desc_line_ok (sl_alloc s) = true /\ not_bullet_first (sl_alloc s) = true).
+  { unfold alloc_tok_ok in Ha. destruct (sl_alloc s) as [|c [|d r]] eqn:E; try discriminate.
+    apply andb_true_iff in Ha. destruct Ha as [Hc Hr].
+    assert (Hall : forall x, In x (c :: d :: r) -> is_num_char x = true).
+    { intros x [<-|Hx]; [unfold is_num_char; rewrite Hc; reflexivity|].
+      rewrite forallb_forall in Hr. apply is_numdot_num. apply Hr. exact Hx. }
+    split.
+    - unfold desc_line_ok. rewrite (is_digit_nonspace c Hc). cbn [negb andb].
+      rewrite (is_num_char_nonspace (last (c :: d :: r) 32)).
+      + cbn [negb andb]. unfold no_nl. apply forallb_forall. intros x Hx.
+        rewrite (is_num_char_not_nl x (Hall x Hx)). reflexivity.
+      + apply Hall. destruct (exists_last (l := c :: d :: r)) as [l' [a Ea]]; [discriminate|].
+        rewrite Ea, last_last. apply in_or_app. right. left. reflexivity.
+    - cbn. rewrite (is_num_char_not_bullet c); [reflexivity|]. apply Hall. left. reflexivity. }
+  assert (Hdf : desc_line_ok (sl_fmv s) = true).
+  { unfold fmv_tok_ok in Hf. destruct (sl_fmv s) as [|c r] eqn:E; try discriminate.
+    apply andb_true_iff in Hf. destruct Hf as [Hc Hr].
+    assert (Hall : forall x, In x (c :: r) -> is_num_char x = true).
+    { intros x [<-|Hx]; [unfold is_num_char; rewrite Hc; reflexivity|].
+      rewrite forallb_forall in Hr. apply Hr. exact Hx. }
+    unfold desc_line_ok. rewrite (is_digit_nonspace c Hc). cbn [negb andb].
+    rewrite (is_num_char_nonspace (last (c :: r) 32)).
+    + cbn [negb andb]. unfold no_nl. apply forallb_forall. intros x Hx.
+      rewrite (is_num_char_not_nl x (Hall x Hx)). reflexivity.
+    + apply Hall. destruct (exists_last (l := c :: r)) as [l' [a Ea]]; [discriminate|].
+      rewrite Ea, last_last. apply in_or_app. right. left. reflexivity. }
+  destruct Hda as [Hda Hnb]. split.
+  - apply desc_line_ok_join; assumption.
+  - destruct (sl_alloc s); [discriminate|]. exact Hnb.
+Qed.
+
+(* ---------- the lines of a security ---------- *)
+Lemma sec_layout_parts s :
+  sec_layout_ok s = true ->
+  exists x more, sl_lines s = x :: more /\ forallb desc_line_ok (x :: more) = true /\
+    forallb not_bullet_first more = true /\
+    alloc_tok_ok (sl_alloc s) = true /\ plain_num_ok (sl_alloc s) = true /\
+    fmv_tok_ok (sl_fmv s) = true /\ plain_num_ok (strip_commas (sl_fmv s)) = true.
+Proof.
+  unfold sec_layout_ok. destruct (sl_lines s) as [|x more]; [discriminate|].
+  rewrite !andb_true_iff. intros [[[[[H1 H2] H3] H4] H5] H6]. exists x, more. auto 10.
+Qed.
+
+Lemma attach_inline_ok dl n :
+  dl <> [] -> forallb desc_line_ok dl = true -> forallb not_bullet_first (tl dl) = true ->
+  desc_line_ok n = true ->
+  forallb desc_line_ok (attach_inline dl n) = true /\
+  forallb not_bullet_first (tl (attach_inline dl n)) = true.
+Proof.
+  intros Hne Hd Hb Hn. induction dl as [|x r IH]; [contradiction Hne; reflexivity|].
+  cbn [forallb] in Hd. apply andb_true_iff in Hd. destruct Hd as [Hx Hr].
+  destruct r as [|y r'].
+  - cbn [attach_inline forallb tl]. rewrite (desc_line_ok_join x n Hx Hn). auto.
+  - change (attach_inline (x :: y :: r') n) with (x :: attach_inline (y :: r') n).
+    cbn [tl] in Hb. cbn [forallb] in Hb. apply andb_true_iff in Hb. destruct Hb as [Hy Hb'].
+    destruct IH as [IH1 IH2]; [discriminate | exact Hr | exact Hb' |].
+    cbn [forallb tl]. rewrite Hx, IH1. split; [reflexivity|].
+    (* the head of attach_inline (y :: r') n starts like y *)
+    destruct r' as [|z r''].
+    + cbn [attach_inline forallb]. destruct (desc_line_ok_parts y) as [c [t [-> _]]].
+      { cbn [forallb] in Hr. apply andb_true_iff in Hr. apply Hr. }
+      cbn in Hy |- *. rewrite Hy. reflexivity.
+    + change (attach_inline (y :: z :: r'') n) with (y :: attach_inline (z :: r'') n) in *.
+      cbn [forallb tl] in IH2 |- *. rewrite Hy, IH2. reflexivity.
+Qed.
+
+Lemma sec_lines_ok s :
+  sec_layout_ok s = true ->
+  exists h conts, sec_lines s = h :: conts /\ desc_line_ok h = true /\
+    forallb desc_line_ok conts = true /\ forallb not_bullet_first conts = true.
+Proof.
+  intros H. destruct (sec_layout_parts s H) as [x [more [El [Hd [Hb [Ha [_ [Hf _]]]]]]]].
+  destruct (nums_line_ok s Ha Hf) as [Hn Hnb].
+  unfold sec_lines. rewrite El. destruct (sl_own s).
+  - exists x, (more ++ [nums s]). split; [reflexivity|].
+    cbn [forallb] in Hd. apply andb_true_iff in Hd. destruct Hd as [Hx Hm].
+    rewrite !forallb_app. cbn [forallb]. rewrite Hx, Hm, Hb, Hn, Hnb. auto.
+  - destruct (attach_inline_ok (x :: more) (nums s)) as [H1 H2]; [discriminate | exact Hd | exact Hb | exact Hn |].
+    destruct (attach_inline (x :: more) (nums s)) as [|h conts] eqn:E.
+    + destruct more; discriminate.
+    + exists h, conts. cbn [forallb tl] in H1, H2. apply andb_true_iff in H1. destruct H1 as [Hh Hc]. auto.
+Qed.
+
+Lemma security_text_full s :
+  sec_layout_ok s = true -> security_text_to_fmv (full_text s) = Ok (sec_content s).
+Proof.
+  intros H. destruct (sec_layout_parts s H) as [x [more [El [Hd [Hb [Ha [Hpa [Hf Hpf]]]]]]]].
+  unfold security_text_to_fmv, full_text, nums.
+  rewrite match_data_rendered; [| |exact Ha|exact Hf].
+  - unfold parse_alloc, parse_large. rewrite Hpa, Hpf. reflexivity.
+  - apply desc_line_ok_text. rewrite El. apply desc_line_ok_join_sp; [discriminate | exact Hd].
+Qed.
+
+(* ---------- the state machine on a rendered table ---------- *)
+Definition mk (fm : list fmv) (s : sm_state) (d : text) : sm :=
+  {| sm_fmvs := fm; sm_state_of := s; sm_desc := d |}.
+
+Definition ind_of (k : nat) : text := repeat 32 k.
+
+Lemma is_total_bullet k r : is_total (ind_of k ++ c_bullet :: r) = false.
+Proof. unfold is_total, match_total, ind_of. rewrite skip_spaces_repeat. reflexivity. Qed.
+
+Lemma existsb_bullet_line k r : existsb (N.eqb c_bullet) (ind_of k ++ c_bullet :: r) = true.
+Proof. rewrite existsb_app. cbn [existsb]. rewrite N.eqb_refl, orb_true_r. reflexivity. Qed.
+
+(* continuation lines of a security are appended to the gathered text *)
+Lemma run_conts k conts : forall acc fm rest,
+  forallb desc_line_ok conts = true -> forallb not_bullet_first conts = true ->
+  unamb (ind_of k) acc conts = true ->
+  run_lines (mk fm Gather acc) (map (app (ind_of k)) conts ++ rest)
+  = run_lines (mk fm Gather (acc ++ concat (map (cons 32) conts))) rest.
+Proof.
+  induction conts as [|l r IH]; intros acc fm rest Hd Hb Hu.
+  - cbn [map concat app]. rewrite app_nil_r. reflexivity.
+  - cbn [forallb] in Hd, Hb. apply andb_true_iff in Hd. destruct Hd as [Hl Hd].
+    apply andb_true_iff in Hb. destruct Hb as [Hbl Hb].
+    cbn [unamb] in Hu. apply andb_true_iff in Hu. destruct Hu as [Hu1 Hu].
+    destruct (desc_line_ok_parts l Hl) as [c [t [-> [Hc [Hlast Hnl]]]]].
+    cbn [not_bullet_first] in Hbl. apply negb_true_iff in Hbl.
+    cbn [map app run_lines]. unfold ind_of at 1. rewrite is_blank_repeat, (is_blank_nonspace _ _ Hc).
+    fold (ind_of k).
+    assert (Hg : gather_security_line (mk fm Gather acc) (ind_of k ++ c :: t)
+                 = Ok (mk fm Gather (acc ++ 32 :: c :: t))).
+    { unfold gather_security_line, ind_of. rewrite (match_first_row_other k c t Hc Hbl).
+      rewrite is_blank_repeat, (is_blank_nonspace _ _ Hc). rewrite (trim_indent k c t Hc Hlast).
+      reflexivity. }
+    assert (Hstep : step (mk fm Gather acc) (ind_of k ++ c :: t) = Cont (mk fm Gather (acc ++ 32 :: c :: t))).
+    { unfold step. cbn [sm_state_of mk].
+      destruct (is_total (ind_of k ++ c :: t)) eqn:Et.
+      - cbn [negb orb] in Hu1. apply negb_true_iff in Hu1. unfold finalize_ok in Hu1.
+        unfold finalize. cbn [sm_desc mk].
+        destruct (security_text_to_fmv acc) as [f| |]; [discriminate Hu1| |];
+          cbn [bind]; rewrite Hg; reflexivity.
+      - rewrite Hg. reflexivity. }
+    rewrite Hstep. rewrite (IH (acc ++ 32 :: c :: t) fm rest Hd Hb Hu).
+    cbn [map concat]. rewrite <- app_assoc. reflexivity.
+Qed.
+
+(* the machine between securities: [done] finished, [pend] being gathered *)
+Definition ready (done : list fmv) (pend : option sec_lay) : sm :=
+  match pend with
+  | None => mk done LookFirst []
+  | Some p => mk done Gather (full_text p)
+  end.
+Definition flush (done : list fmv) (pend : option sec_lay) : list fmv :=
+  done ++ match pend with None => [] | Some p => [sec_content p] end.
+Definition pend_ok (pend : option sec_lay) : Prop :=
+  match pend with None => True | Some p => sec_layout_ok p = true end.
+
+Lemma full_text_nonnil p : full_text p <> [].
+Proof. unfold full_text. destruct (join_sp (sl_lines p)); discriminate. Qed.
+
+Lemma run_sec k s done pend rest :
+  pend_ok pend -> sec_layout_ok s = true -> sec_unambiguous (ind_of k) s = true ->
+  run_lines (ready done pend) (render_sec (ind_of k) s ++ rest)
+  = run_lines (ready (flush done pend) (Some s)) rest.
+Proof.
+  intros Hp Hs Hu.
+  destruct (sec_lines_ok s Hs) as [h [conts [El [Hh [Hd Hb]]]]].
+  destruct (sec_layout_parts s Hs) as [x [more [Elines _]]].
+  unfold render_sec, sec_unambiguous in *. rewrite El in *.
+  assert (Hblank : forall m l, run_lines m ((if sl_blank s then [[]] else []) ++ l) = run_lines m l).
+  { intros m l. destruct (sl_blank s); reflexivity. }
+  rewrite <- app_assoc, Hblank. cbn [app].
+  destruct (desc_line_ok_parts h Hh) as [c [t [Eh [Hc _]]]].
+  assert (Hnb : is_blank (ind_of k ++ c_bullet :: 32 :: h) = false).
+  { unfold ind_of. rewrite is_blank_repeat. apply is_blank_nonspace. reflexivity. }
+  assert (Hfirst : step (ready done pend) (ind_of k ++ c_bullet :: 32 :: h)
+                   = Cont (mk (flush done pend) Gather h)).
+  { unfold step, ready, flush. destruct pend as [p|].
+    - cbn [sm_state_of mk]. rewrite is_total_bullet.
+      unfold gather_security_line. unfold ind_of at 1. rewrite (match_first_row_bullet k h Hh).
+      cbn [sm_desc mk].
+      destruct (full_text p) as [|a b] eqn:Ef; [exfalso; apply (full_text_nonnil p); exact Ef|].
+      rewrite <- Ef. unfold finalize. cbn [sm_desc mk]. rewrite (security_text_full p Hp).
+      reflexivity.
+    - cbn [sm_state_of mk]. rewrite existsb_bullet_line.
+      unfold gather_security_line, with_state. cbn [sm_fmvs sm_desc sm_state_of mk].
+      unfold ind_of at 1. rewrite (match_first_row_bullet k h Hh). rewrite app_nil_r. reflexivity. }
+  cbn [run_lines]. rewrite Hnb, Hfirst.
+  rewrite (run_conts k conts h (flush done pend) rest Hd Hb Hu).
+  unfold ready.
+  replace (h ++ concat (map (cons 32) conts)) with (full_text s); [reflexivity|].
+  rewrite <- join_sec_lines by (rewrite Elines; discriminate). rewrite El. reflexivity.
+Qed.
+
+Lemma ascii_no_bullet l : forallb (fun c => c <? 128) l = true -> existsb (N.eqb c_bullet) l = false.
+Proof.
+  intros H. apply existsb_false_forallb. apply forallb_forall. intros x Hx.
+  rewrite forallb_forall in H. specialize (H x Hx). apply N.ltb_lt in H.
+  apply negb_true_iff. apply N.eqb_neq. unfold c_bullet. lia.
+Qed.
+
+Lemma is_num_char_ascii c : is_num_char c = true -> (c <? 128) = true.
+Proof.
+  unfold is_num_char, is_digit, is_dot, is_comma.
+  rewrite !orb_true_iff, andb_true_iff, !N.leb_le, !N.eqb_eq. intros H. apply N.ltb_lt. lia.
+Qed.
+
+Lemma total_line_no_bullet k (b00 : bool) tot :
+  total_tok_ok tot = true ->
+  existsb (N.eqb c_bullet) (ind_of k ++ t_100_0 ++ (if b00 then [48] else []) ++ 32 :: tot) = false.
+Proof.
+  intros Ht. destruct (total_tok_chars tot Ht) as [c [r [-> [Hc Hr]]]].
+  apply ascii_no_bullet. rewrite !forallb_app.
+  assert (H1 : forallb (fun c => c <? 128) (ind_of k) = true).
+  { unfold ind_of. induction k as [|k IH]; [reflexivity|]. cbn [repeat forallb]. rewrite IH. reflexivity. }
+  rewrite H1. cbn [andb].
+  assert (H2 : forallb (fun c => c <? 128) (c :: r) = true).
+  { apply forallb_forall. intros x [<-|Hx].
+    - apply is_num_char_ascii. unfold is_num_char. rewrite Hc. reflexivity.
+    - rewrite forallb_forall in Hr. apply is_num_char_ascii. apply Hr. exact Hx. }
+  destruct b00; cbn [forallb t_100_0 app]; cbn [forallb] in H2 |- *; rewrite H2; reflexivity.
+Qed.
+
+Lemma run_total k (b00 : bool) tot done pend post :
+  pend_ok pend -> total_tok_ok tot = true -> plain_num_ok (strip_commas tot) = true ->
+  run_lines (ready done pend)
+            ((ind_of k ++ t_100_0 ++ (if b00 then [48] else []) ++ 32 :: tot) :: post)
+  = Ok (flush done pend, plain_num_value (strip_commas tot)).
+Proof.
+  intros Hp Ht Hn.
+  pose proof (match_total_line k b00 tot Ht) as Hm. fold (ind_of k) in Hm.
+  assert (Hnb : is_blank (ind_of k ++ t_100_0 ++ (if b00 then [48] else []) ++ 32 :: tot) = false).
+  { unfold ind_of. rewrite is_blank_repeat. reflexivity. }
+  assert (Hg : gather_total_line (ind_of k ++ t_100_0 ++ (if b00 then [48] else []) ++ 32 :: tot)
+               = Ok (plain_num_value (strip_commas tot))).
+  { unfold gather_total_line. rewrite Hm. unfold parse_large. rewrite Hn. reflexivity. }
+  cbn [run_lines]. rewrite Hnb. unfold step, ready, flush, is_total. destruct pend as [p|].
+  - cbn [sm_state_of mk]. rewrite Hm. unfold finalize. cbn [sm_desc mk].
+    rewrite (security_text_full p Hp). cbn [bind]. rewrite Hg. reflexivity.
+  - cbn [sm_state_of mk]. rewrite (total_line_no_bullet k b00 tot Ht), Hm, Hg.
+    cbn [lift sm_fmvs mk]. rewrite app_nil_r. reflexivity.
+Qed.
+
+Lemma run_secs k (b00 : bool) tot post secs : forall done pend,
+  pend_ok pend -> forallb sec_layout_ok secs = true ->
+  forallb (sec_unambiguous (ind_of k)) secs = true ->
+  total_tok_ok tot = true -> plain_num_ok (strip_commas tot) = true ->
+  run_lines (ready done pend)
+            (flat_map (render_sec (ind_of k)) secs
+             ++ (ind_of k ++ t_100_0 ++ (if b00 then [48] else []) ++ 32 :: tot) :: post)
+  = Ok (flush done pend ++ map sec_content secs, plain_num_value (strip_commas tot)).
+Proof.
+  induction secs as [|s r IH]; intros done pend Hp Hl Hu Ht Hn.
+  - cbn [flat_map app map]. rewrite app_nil_r. apply run_total; assumption.
+  - cbn [forallb] in Hl, Hu. apply andb_true_iff in Hl. destruct Hl as [Hs Hl].
+    apply andb_true_iff in Hu. destruct Hu as [Hus Hu].
+    cbn [flat_map]. rewrite <- app_assoc. rewrite (run_sec k s done pend _ Hp Hs Hus).
+    rewrite (IH (flush done pend) (Some s) Hs Hl Hu Ht Hn).
+    unfold flush at 1. cbn [map]. rewrite <- app_assoc. reflexivity.
+Qed.
+
+(* lines before the header, and the header *)
+Lemma run_pre k pre : forall rest,
+  forallb (fun l => negb (contains t_ALLOCATION (ind_of k ++ l))) pre = true ->
+  run_lines sm_init (map (app (ind_of k)) pre ++ rest) = run_lines sm_init rest.
+Proof.
+  induction pre as [|l r IH]; intros rest H; [reflexivity|].
+  cbn [forallb] in H. apply andb_true_iff in H. destruct H as [Hl Hr]. apply negb_true_iff in Hl.
+  cbn [map app run_lines]. destruct (is_blank (ind_of k ++ l)); [apply IH; exact Hr|].
+  unfold step. cbn [sm_state_of sm_init]. rewrite Hl. apply IH. exact Hr.
+Qed.
+
+Theorem table_roundtrip t post :
+  well_formed t = true -> parse_page (render_table t ++ post) = Ok (content t).
+Proof.
+  unfold well_formed, layout_ok. rewrite !andb_true_iff.
+  intros [[[[[[[Hplain Hpre] Hhc] Hhb] Hsecs] Htok] Hnum] Hun].
+  unfold parse_page, render_table. rewrite (lines_render _ post Hplain).
+  unfold unambiguous in *. unfold render_lines, indent in *. fold (ind_of (tl_indent t)) in *.
+  rewrite <- !app_assoc. rewrite (run_pre _ _ _ Hpre).
+  cbn [app run_lines]. apply negb_true_iff in Hhb. rewrite Hhb.
+  unfold step at 1. cbn [sm_state_of sm_init]. rewrite Hhc.
+  change (with_state sm_init LookFirst) with (ready [] None).
+  unfold total_line.
+  exact (run_secs (tl_indent t) (tl_total00 t) (tl_total t) (lines post) (tl_secs t) [] None I Hsecs Hun Htok Hnum).
+Qed.
+
+(* ---------- the statement level ---------- *)
+Lemma stmt_skip_none before : forall rest,
+  Forall (fun p => has_marker p = false /\ month_date_of p = Ok None) before ->
+  parse_statement_aux None (before ++ rest) = parse_statement_aux None rest.
+Proof.
+  induction before as [|p r IH]; intros rest H; [reflexivity|].
+  inversion H as [|p' r' [Hm Hd] Hr]; subst.
+  cbn [app parse_statement_aux]. rewrite Hd. cbn [bind]. rewrite Hm. apply IH. exact Hr.
+Qed.
+
+Lemma stmt_skip_some between : forall d rest,
+  Forall (fun p => has_marker p = false) between ->
+  parse_statement_aux (Some d) (between ++ rest) = parse_statement_aux (Some d) rest.
+Proof.
+  induction between as [|p r IH]; intros d rest H; [reflexivity|].
+  inversion H as [|p' r' Hm Hr]; subst.
+  cbn [app parse_statement_aux bind]. rewrite Hm. apply IH. exact Hr.
+Qed.
+
+(* a statement: pages without month or table, the page carrying the month,
+   pages without table, the page carrying a well-formed table, anything *)
+Theorem statement_roundtrip before mp between t post after d :
+  Forall (fun p => has_marker p = false /\ month_date_of p = Ok None) before ->
+  has_marker mp = false -> month_date_of mp = Ok (Some d) ->
+  Forall (fun p => has_marker p = false) between ->
+  has_marker (render_table t ++ post) = true ->
+  well_formed t = true ->
+  parse_statement_text (before ++ mp :: between ++ (render_table t ++ post) :: after)
+  = Ok {| st_month := d; st_fmvs := fst (content t); st_total := snd (content t) |}.
+Proof.
+  intros Hb Hmm Hmd Hbt Htm Hwf. unfold parse_statement_text.
+  rewrite (stmt_skip_none before _ Hb).
+  cbn [parse_statement_aux]. rewrite Hmd. cbn [bind]. rewrite Hmm.
+  rewrite (stmt_skip_some between d _ Hbt).
+  cbn [parse_statement_aux bind]. rewrite Htm.
+  rewrite (table_roundtrip t post Hwf). cbn [bind]. destruct (content t). reflexivity.
+Qed.
+
+(* same page carries month and table *)
+Theorem statement_roundtrip_one_page before t post after d :
+  Forall (fun p => has_marker p = false /\ month_date_of p = Ok None) before ->
+  month_date_of (render_table t ++ post) = Ok (Some d) ->
+  has_marker (render_table t ++ post) = true ->
+  well_formed t = true ->
+  parse_statement_text (before ++ (render_table t ++ post) :: after)
+  = Ok {| st_month := d; st_fmvs := fst (content t); st_total := snd (content t) |}.
+Proof.
+  intros Hb Hmd Htm Hwf. unfold parse_statement_text.
+  rewrite (stmt_skip_none before _ Hb).
+  cbn [parse_statement_aux]. rewrite Hmd. cbn [bind]. rewrite Htm.
+  rewrite (table_roundtrip t post Hwf). cbn [bind]. destruct (content t). reflexivity.
+Qed.
+
+(* ---------- examples / witnesses ---------- *)
+Definition asc (l : list Z) : text := map Z.to_N l.
+
+(* "SOME BOND 5.25 2030" : a single 100% holding whose description ends in two numbers *)
+Definition t_SOME_BOND : text :=
+  [83;79;77;69;32;66;79;78;68;32;53;46;50;53;32;50;48;51;48].
+Definition t_hdr : text :=   (* ALLOCATION (%) MARKET VALUE ($) *)
+  t_ALLOCATION ++ [32;40;37;41;32;77;65;82;75;69;84;32;86;65;76;85;69;32;40;36;41].
+Definition ambiguous_witness : table_lay :=
+  {| tl_indent := 0; tl_pre := []; tl_header := t_hdr;
+     tl_secs := [ {| sl_lines := [t_SOME_BOND]; sl_alloc := [49;48;48;46;48];
+                     sl_fmv := [53;48;44;48;48;48;46;48;48]; sl_own := true; sl_blank := false |} ];
+     tl_total := [53;48;44;48;48;48;46;48;48]; tl_total00 := false |}.
+
+Lemma ambiguous_witness_fails :
+  layout_ok ambiguous_witness = true /\ ambiguous ambiguous_witness = true /\
+  parse_page (render_table ambiguous_witness) <> Ok (content ambiguous_witness).
+Proof.
+  split; [vm_compute; reflexivity|]. split; [vm_compute; reflexivity|].
+  intros H. vm_compute in H. discriminate H.
+Qed.
+
+(* the multi-line / single 100% example of the repository's own test *)
+Definition t_SOME_GIC : text :=      (* SOME GIC 01/01/2024 *)
+  [83;79;77;69;32;71;73;67;32;48;49;47;48;49;47;50;48;50;52].
+Definition t_GIC_LINE2 : text :=     (* 4.00% 1Y DUE 01/01/2024  INT  4.000% (XXXXXX) *)
+  [52;46;48;48;37;32;49;89;32;68;85;69;32;48;49;47;48;49;47;50;48;50;52;32;32;73;78;84;32;32;
+   52;46;48;48;48;37;32;40;88;88;88;88;88;88;41].
+Definition single_holding_example : table_lay :=
+  {| tl_indent := 12; tl_pre := [[]]; tl_header := t_hdr;
+     tl_secs := [ {| sl_lines := [t_SOME_GIC; t_GIC_LINE2]; sl_alloc := [49;48;48;46;48];
+                     sl_fmv := [57;57;44;57;57;57;46;57;57]; sl_own := true; sl_blank := true |} ];
+     tl_total := [49;48;48;44;48;48;48;46;48;48]; tl_total00 := false |}.
+
+Lemma single_holding_example_wf : well_formed single_holding_example = true.
+Proof. vm_compute. reflexivity. Qed.
